@@ -51,7 +51,9 @@ class FakeCursor:
         return self
 
     def _materialise(self):
-        docs = list(self._docs)
+        # the query goes to the server when the cursor is first iterated, not when find() / aggregate() is called: the filter
+        # is whatever the (mutable) filter document the driver was handed says at that moment, over the collection as it then is
+        docs = list(self._docs() if callable(self._docs) else self._docs)
         if self._sort:
             for key, direction in reversed(self._sort):
                 docs.sort(key=lambda d: _sort_key(d.get(key)), reverse=direction < 0)
@@ -269,8 +271,8 @@ class FakeCollection:
 
     def find(self, flt=None, projection=None, skip=0, limit=0, sort=None, **kw):
         self._maybe_fail('find')
-        docs = [d for d in self.docs if _match(d, flt)]
-        return FakeCursor(docs, sort=list(sort) if sort else None, skip=skip, limit=limit)
+        return FakeCursor(lambda: [d for d in self.docs if _match(d, flt)], sort=list(sort) if sort else None, skip=skip,
+                          limit=limit)
 
     def aggregate(self, pipeline):
         self._maybe_fail('aggregate')
